@@ -42,3 +42,39 @@ def check_generator(ck, items, label="c02gen", per_file=6, timeout=900, workers=
     if skipped:
         ck.notes.append(f"{skipped} models outside the generator model's fragment Conv (Conv|Pool)* [Flatten Dense*]")
     return skipped
+
+
+HEADER_N = ("From Coq Require Import List Arith Bool ZArith NArith. Import ListNotations.\n"
+            "From TLX Require Import Model.CLang Model.ConvNet Model.GenNet Model.GenStream.\n")
+
+
+def large_text(spec, p):
+    """Cases file for one LARGE program: binary indices on the parsed side, streaming comparison (Model/GenStream.v)."""
+    sm = nets.spatial_model_coq(spec)
+    if sm is None:
+        return None
+    pg = dict(p, sizes=list(p["sizes"]) + ([0] if p["n_locals"] == 0 else []))
+    # the statement list is written in chunks of 4000 (a single very long list literal overflows coqc's stack)
+    body = pg["body"]
+    chunks = [body[i:i + 4000] for i in range(0, len(body), 4000)] or [[]]
+    txt = HEADER_N + f"Definition m : spatial_model := {sm}.\n"
+    for i, ch in enumerate(chunks):
+        txt += f"Definition b{i} : list stmtN := [" + ";\n  ".join(cparse.stmt_coqN(st) for st in ch) + "].\n"
+    txt += ("Definition p : progN := {| sizesN := [" + "; ".join(f"{x}%N" for x in pg["sizes"]) + "]; bodyN := " +
+            " ++ ".join(f"b{i}" for i in range(len(chunks))) + " |}.\n")
+    return txt + "Eval vm_compute in (gen_net_matchesN p m, wf_spatial_model m, first_mismatch p m).\n"
+
+
+def judge_large(ck, name, p, rc, out, err):
+    if rc != 0:
+        ck.broke("correspondence", "generator model evaluation (streaming)", f"{name}: " + err[-500:])
+        return False
+    eq, wf, d = coqio.parse_evals(out)[0]
+    ck.count("large_programs_equal_to_generator_model")
+    if eq and wf:
+        return True
+    where = f"statement {d}: {p['stmt_lines'][d]}" if 0 <= d < len(p["stmt_lines"]) else "sizes or statement count differ"
+    ck.broke("correspondence", "Model/GenNet.gen_net vs get_c_code()",
+             f"{name}: " + ("architecture not well formed (wf_spatial_model = false)" if not wf else
+                            f"emitted text differs from the generator model at {where}"))
+    return False
